@@ -79,7 +79,12 @@ Definition convert_to (q : qual) (e : expr) (v : variant) : vres variant :=
   | None => Err ETypeMismatch
   end.
 
-Record state := mk_state { vars : env; screen : dev }.
+(** the devices a program talks to: the screen, and the DATA items not yet READ *)
+Record io := mk_io { scr : dev; dat : list variant }.
+Definition io0 : io := mk_io dev0 [].
+Definition set_scr (i : io) (d : dev) : io := mk_io d (dat i).
+
+Record state := mk_state { vars : env; screen : io }.
 
 Inductive outcome :=
 | Done (s : state)
@@ -169,9 +174,9 @@ Fixpoint exec (fuel : nat) (s : stmt) (st : state) {struct fuel} : outcome :=
               end
           end
       | SPrint p args =>
-          match print_items args st (screen st) false with
-          | inl (d, skip, st') => Done (mk_state st' (if skip then d else println d))
-          | inr (x, q, d, st') => Failed x q (mk_state st' d)
+          match print_items args st (scr (screen st)) false with
+          | inl (d, skip, st') => Done (mk_state st' (set_scr (screen st) (if skip then d else println d)))
+          | inr (x, q, d, st') => Failed x q (mk_state st' (set_scr (screen st) d))
           end
       | SIf p c thn elifs els =>
           match cond c st p with
